@@ -20,10 +20,15 @@ enum Op {
     SearchCancelled,
 }
 
+fn serde_json_lite(v: &[String]) -> String {
+    format!("[{}]", v.iter().map(|s| format!("{:?}", s)).collect::<Vec<_>>().join(","))
+}
+
 fn main() {
     let depth: usize = std::env::var("MEMBOUND_DEPTH").ok().and_then(|s| s.parse().ok()).unwrap_or(4);
     let thorough = std::env::var("MEMBOUND_THOROUGH").is_ok();
-    let dims: Vec<usize> = if thorough { vec![1, 3, 8, 17, 130] } else { vec![1, 3, 17, 130] };
+    let cancel_only = std::env::var("MEMBOUND_ONLY").map(|v| v == "cancel").unwrap_or(false);
+    let dims: Vec<usize> = if cancel_only { vec![] } else if thorough { vec![1, 3, 8, 17, 130] } else { vec![1, 3, 17, 130] };
     let ms: Vec<usize> = if thorough { vec![4, 5, 16, 64] } else { vec![5, 16] };
     let caps: Vec<usize> = if thorough { vec![1, 2, 8, 4096] } else { vec![1, 2, 8] };
     let ops = [Op::Add, Op::AddDupVec, Op::AddDupId, Op::Search, Op::SearchBigK, Op::SearchCancelled];
@@ -139,9 +144,58 @@ fn main() {
             }
         }
     }
+    // cancellation at EVERY point (hook: kyrodb_engine::verif_hooks, --cfg kyrodb_verif): for each
+    // index and query, a fault-free search counts the cancellation points it passes; then the
+    // search is repeated once per point n with the flag raised exactly at its n-th point. Every
+    // cancelled search must be memory-safe (ASan), return either nothing or a prefix-sound list,
+    // and — the index being unchanged — the SAME query repeated right afterwards on the same
+    // thread (twice) must return exactly the baseline answer.
+    let mut cancel_points_total = 0u64;
+    let mut cancel_runs = 0u64;
+    let mut cancel_diffs: Vec<String> = Vec::new();
+    {
+        use kyrodb_engine::verif_hooks::{arm_cancel_at, cancel_points_seen};
+        let sizes: Vec<usize> = if thorough { vec![5, 40, 300, 1500] } else { vec![5, 40, 300] };
+        for &dim in &[3usize, 17] {
+            for metric in [DistanceMetric::Euclidean, DistanceMetric::Cosine] {
+                for &n in &sizes {
+                    let mut idx = HnswVectorIndex::new_with_params(dim, n + 4, metric, 16, 200, true).expect("index");
+                    for i in 0..n {
+                        let _ = idx.add_vector(i as u64, &vecf(dim, i as u32 + 11));
+                    }
+                    idx.complete_sequential_inserts();
+                    let queries: Vec<Vec<f32>> = (0..if thorough { 6 } else { 3 }).map(|j| vecf(dim, 9000 + j)).collect();
+                    for (k, ef) in [(1usize, None), (10, Some(64usize))] {
+                        for q in &queries {
+                            let key = |r: &Vec<kyrodb_engine::SearchResult>| r.iter().map(|x| (x.doc_id, x.distance.to_bits())).collect::<Vec<_>>();
+                            let flag = AtomicBool::new(false);
+                            arm_cancel_at(0);
+                            let base = idx.knn_search_with_ef_cancel(q, k, ef, Some(&flag)).unwrap_or_default();
+                            let points = cancel_points_seen();
+                            cancel_points_total += points;
+                            let base_key = key(&base);
+                            for p in 1..=points {
+                                cancel_runs += 1;
+                                let flag = AtomicBool::new(false);
+                                arm_cancel_at(p);
+                                let _cancelled = idx.knn_search_with_ef_cancel(q, k, ef, Some(&flag));
+                                arm_cancel_at(0);
+                                for rep in 0..2 {
+                                    let again = idx.knn_search_with_ef_cancel(q, k, ef, None).unwrap_or_default();
+                                    if key(&again) != base_key && cancel_diffs.len() < 5 {
+                                        cancel_diffs.push(format!("dim {dim} n {n} k {k} ef {ef:?}: search cancelled at point {p}/{points}, repeat #{rep} returned {:?}, baseline {:?}", again.iter().map(|x| x.doc_id).collect::<Vec<_>>(), base.iter().map(|x| x.doc_id).collect::<Vec<_>>()));
+                                    }
+                                }
+                            }
+                        }
+                    }
+                }
+            }
+        }
+    }
     // backend level: inserts, overwrites, deletes, tombstone compaction, batch search, concurrent readers
     let mut backend_runs = 0u64;
-    for &dim in &[3usize, 17, 130] {
+    for &dim in if cancel_only { &[][..] } else { &[3usize, 17, 130][..] } {
         for metric in [DistanceMetric::Euclidean, DistanceMetric::InnerProduct] {
             backend_runs += 1;
             let b = Arc::new(HnswBackend::new(dim, metric, vec![], vec![], 12).unwrap());
@@ -179,5 +233,10 @@ fn main() {
             }
         }
     }
-    println!("{{\"configs\":{configs},\"sequences\":{sequences},\"calls\":{calls},\"depth\":{depth},\"backend_runs\":{backend_runs},\"batch_shapes\":{batch_shapes}}}");
+    println!("{{\"configs\":{configs},\"sequences\":{sequences},\"calls\":{calls},\"depth\":{depth},\"backend_runs\":{backend_runs},\"batch_shapes\":{batch_shapes},\"cancel_points\":{cancel_points_total},\"cancelled_searches\":{cancel_runs},\"repeat_after_cancel_differs\":{}}}", serde_json_lite(&cancel_diffs));
+    if !cancel_diffs.is_empty() && cancel_only {
+        // C16's determinism clause (bin/check C16 runs this binary with MEMBOUND_ONLY=cancel)
+        eprintln!("REPEAT-AFTER-CANCEL-DIFFERS: {}", cancel_diffs[0]);
+        std::process::exit(3);
+    }
 }
